@@ -151,3 +151,24 @@ for _fn in ("find._extract_id_citation", "find._extract_supra_citation", "find._
 R.contracts["find._extract_id_citation"].ghost_init["pfx"] = "ghost.pfx == ''"
 R.contracts["find._extract_supra_citation"].ghost_init["pfx"] = "ghost.pfx == ''"
 R.contracts["find._extract_shortform_citation"].ghost_init["pfx"] = "ghost.pfx == typed(words[index], 'obj<CitationToken>').groups['page']"
+
+# ------------------------------------------------------------------------------------------------ parallel citations (C17)
+_YEAR_OF = lambda c: (f"({c}.year is None or (1600 <= {c}.year and {c}.year <= G._highest_valid_year and {c}.metadata.year is not None "
+                      f"and len({c}.metadata.year) >= 4 and {c}.year == str_to_int({c}.metadata.year[0:4])))")
+contract("models.FullCaseCitation.is_parallel_citation",
+    types={"self": "obj<FullCaseCitation>", "preceding": "obj<CaseCitation>"}, returns="none", noraise=True, prop="C17",
+    requires={"objs": "cit_wf(self) and cit_wf(preceding) and isinstance(preceding, FullCaseCitation)",     # the only call site passes a FullCaseCitation
+              "year_pre": _YEAR_OF("preceding"), "year_self": _YEAR_OF("self")},
+    modifies=["self.metadata.defendant", "self.metadata.plaintiff", "self.metadata.year", "self.year"],
+    ensures={
+        # a citation takes parties / year from the preceding one only when both are part of one joined extent:
+        # both full spans are defined and start at the same place
+        "parallel_only_when_joined": "implies(not (self.full_span_start is not None and preceding.full_span_start is not None and self.full_span_start == preceding.full_span_start), "
+                                     "self.metadata.defendant == old(self.metadata.defendant) and self.metadata.plaintiff == old(self.metadata.plaintiff) "
+                                     "and self.metadata.year == old(self.metadata.year) and self.year == old(self.year))",
+        "copies_when_joined": "implies(self.full_span_start is not None and preceding.full_span_start is not None and self.full_span_start == preceding.full_span_start, "
+                              "self.metadata.defendant == preceding.metadata.defendant and self.metadata.plaintiff == preceding.metadata.plaintiff "
+                              "and self.metadata.year == preceding.metadata.year and self.year == preceding.year)",
+        "year_sound": _YEAR_OF("self"),
+    },
+    props={"year_sound": "C18"})
